@@ -21,6 +21,19 @@ CLAIMED = {
             'harness/rdmstore.py and TLC.', '4/C10'),
 }
 
+CLAIMED['C09'] = (
+    'TLA+ actions boot_rdm/boot_pattern/boot_both of RdmsStore.tla with the random draw as action argument; TLC '
+    'enumerates every draw outcome; replay with the draw forced into numpy.random.randint; observed-draw traces '
+    'validated by Trace_RdmsStore.tla; 6-sigma frequency test for uniformity',
+    'Every outcome of the with-replacement draw for 2-4 groups on either axis and every grouping descriptor (unique, '
+    'duplicated, int/str, list/array) is enumerated by TLC, alone and combined with structural operations; Assoc, Shape '
+    'and BootFaithful (whole groups, drawn multiplicity, as many draws as groups) hold in every state; each behaviour is '
+    'replayed into the real bootstrap functions with the draw forced and sample, returned index arrays and the order '
+    'of a prediction resampled with them are compared; bootstraps under real seeds are recorded at numpy.random.randint '
+    'and must be explained by the same actions.',
+    'Bounded (3 RDMs x 3-4 conditions). Uniformity (clause f) is probabilistic and not expressible in TLA+: TLC establishes '
+    'the support, a 6-sigma frequency test the rest. Trusts harness/rdmstore.py projection.', '4/C09')
+
 NOT_YET = {
 }
 
